@@ -384,3 +384,97 @@ def _glue(h):
         out = FollowPath.follow_path(js, ((0, 0), (1, 0), (2, 1)))
     h.ensure("follow_path-pursues-every-start-index", [x[1:] for x in log if x[0] == "pursue"] == [(0, 0), (1, 0), (2, 1)])
     h.ensure("follow_path-one-curve-per-cycle-up-to-rotation", out == (("curve", ((0, 0), (1, 0))), ("curve", ((2, 1),))))
+
+
+# ---------------------------------------------------------------- is_rotation / filter_rotations: discharged obligations
+# (added after the build round: replaces the exhaustive-labels stand-in `C05.rc-rotation-filter` as the deciding check
+# for these two functions; the stand-in stays as a cross-check of the spec function.)
+
+def _pairs(h, prefix, n):
+    return [(h.int(f"{prefix}{i}j"), h.int(f"{prefix}{i}s")) for i in range(n)]
+
+
+def _peq(p, q):
+    return AND(EQ(p[0], q[0]), EQ(p[1], q[1]))
+
+
+def _distinct(seq):
+    return AND(*[NOT(_peq(seq[i], seq[j])) for i in range(len(seq)) for j in range(i + 1, len(seq))]) if len(seq) > 1 else True
+
+
+def _is_shift(a, b):
+    """spec function: b is a cyclic shift of a (same length n): exists r < n, forall i: b[i] == a[(i + r) % n]"""
+    n = len(a)
+    return OR(*[AND(*[_peq(b[i], a[(i + r) % n]) for i in range(n)]) for r in range(n)])
+
+
+def _mk_is_rotation(n, tier):
+    @proof(f"C05.is-rotation[n={n}]", "C05", funcs=["shape.FollowPath.is_rotation"], props=["C05", "C01", "C06"], tier=tier)
+    def _(h):
+        """for every pair of cycles of length n over (curve index, segment index) labels with arbitrary integer
+        values -- the first one without repeated labels, as every path of `pursue_path` is --: the real
+        `is_rotation` answers True iff the second is a cyclic shift of the first; the arguments are not modified."""
+        a, b = _pairs(h, "a", n), _pairs(h, "b", n)
+        h.assume(_distinct(a))
+        la, lb = list(a), list(b)
+        got = FollowPath.is_rotation(la, lb)
+        h.ensure("returns-a-bool", isinstance(got, bool))
+        h.ensure("is_rotation-iff-cyclic-shift", IFF(got, _is_shift(a, b)))
+        h.ensure("arguments-framed", la == list(a) and lb == list(b) and all(x is y for x, y in zip(la, a)))
+        h.ensure("shorter-second-argument-is-not-a-rotation", FollowPath.is_rotation(list(a), list(b[:-1])) is False)
+    return _
+
+
+for _n, _tier in ((1, "quick"), (2, "quick"), (3, "quick"), (4, "quick"), (5, "thorough"), (6, "thorough")):
+    _mk_is_rotation(_n, _tier)
+
+
+@proof("C05.is-rotation-needs-distinct-labels", "C05", funcs=["shape.FollowPath.is_rotation"], props=["C05"], expect="refuted",
+       note="without the no-repeated-label precondition the contract is false (first-match rotation): must be refuted; "
+            "pins that the precondition is needed, i.e. not vacuous")
+def _is_rotation_canary(h):
+    a, b = _pairs(h, "a", 3), _pairs(h, "b", 3)
+    got = FollowPath.is_rotation(list(a), list(b))
+    h.ensure("is_rotation-iff-cyclic-shift", IFF(got, _is_shift(a, b)))
+
+
+def _mk_filter_rotations(lens, tier):
+    tag = "+".join(map(str, lens))
+
+    @proof(f"C05.filter-rotations[{tag}]", "C05", funcs=["shape.FollowPath.filter_rotations", "shape.FollowPath.is_rotation"],
+           props=["C05", "C01", "C06"], tier=tier, max_paths=20000)
+    def _(h):
+        """for every list of cycles of the given lengths (arbitrary integer labels, no label repeated inside a cycle):
+        the real `filter_rotations` returns a sub-sequence of its input, in order, made of the very same objects;
+        a cycle is kept iff no earlier cycle of the input is a cyclic shift of it (so exactly one representative per
+        class, the first one); the input is not modified."""
+        cycles = [_pairs(h, f"c{k}_", n) for k, n in enumerate(lens)]
+        for c in cycles:
+            h.assume(_distinct(c))
+        matrix = [tuple(c) for c in cycles]
+        before = list(matrix)
+        out = FollowPath.filter_rotations(matrix)
+        h.ensure("returns-a-tuple", isinstance(out, tuple))
+        pos = []
+        ok = True
+        start = 0
+        for line in out:  # sub-sequence by identity
+            idx = next((i for i in range(start, len(matrix)) if matrix[i] is line), None)
+            if idx is None:
+                ok = False
+                break
+            pos.append(idx)
+            start = idx + 1
+        h.ensure("result-is-an-ordered-subsequence-of-the-same-objects", ok)
+        if ok:
+            for k, c in enumerate(cycles):
+                earlier = [cycles[i] for i in range(k) if len(cycles[i]) == len(c)]
+                dup = OR(*[_is_shift(e, c) for e in earlier]) if earlier else False
+                h.ensure(f"cycle-{k}-kept-iff-no-earlier-cyclic-shift", IFF(k in pos, NOT(dup)))
+        h.ensure("input-framed", matrix == before and all(x is y for x, y in zip(matrix, before)))
+    return _
+
+
+for _lens, _tier in (((2, 2), "quick"), ((3, 3), "quick"), ((2, 3, 2), "quick"), ((3, 3, 3), "quick"), ((4, 4), "quick"),
+                     ((3, 3, 3, 3), "thorough"), ((4, 4, 4), "thorough"), ((2, 3, 2, 3), "thorough")):
+    _mk_filter_rotations(_lens, _tier)
